@@ -132,6 +132,20 @@ ONE_SAMPLE = {
 }
 
 
+def reform(row, form, op):
+    """the same row in another form: integer dtype (raw counts) or scaled (non-normalised)"""
+    if form == "float" or op in ("from_rpy", "rpy2q", "euclidean", "rmse"):
+        return row          # angle triples have a documented range: not rescaled
+    def one(x, k):
+        x = np.asarray(x, dtype=float)
+        if form == "int-dtype":
+            return np.rint(x * (100.0 if np.max(np.abs(x)) < 100 else 1.0)).astype(np.int64)
+        return x * (2.5 if k else 0.3)
+    if isinstance(row, tuple):
+        return tuple(one(x, k) for k, x in enumerate(row))
+    return one(row, 1)
+
+
 def same(a, b, mode):
     a = np.asarray(a)
     b = np.asarray(b)
@@ -156,10 +170,13 @@ def replay_cases(recs):
     t = Tally()
     for rec in recs:
         op, arr = rec["op"], rec["arr"]
+        form = rec.get("form", "float")
         gen, scalar, batch, mode = OPS[op]
-        rows = [gen(c) for c in arr]
+        rows = [reform(gen(c), form, op) for c in arr]
+        if form != "float":
+            op = op + "#" + form
         n = len(arr)
-        t.keys.add((op, tuple(arr)))
+        t.keys.add((op, tuple(arr)))      # op carries the form suffix
         sc = []
         if mode == "oleq":
             # the one estimator that draws from NumPy's global RNG: one seed, then the rows in order, on both paths
@@ -187,7 +204,7 @@ def replay_cases(recs):
                 continue
             if not same(B[i], s[1], mode):
                 t.fail("C07|%s|row-differs|%s" % (op, c), dict(case, row=i, batch_row=B[i], scalar=np.asarray(s[1])))
-        if n == 1 and op in ONE_SAMPLE and sc[0][0] == "ok":
+        if n == 1 and form == "float" and op in ONE_SAMPLE and sc[0][0] == "ok":
             t.calls += 1
             o1 = core.outcome(lambda: ONE_SAMPLE[op](rows[0]))
             if o1[0] != "ok":
@@ -210,7 +227,7 @@ def run(chk):
     chk.add_tlc("Vectorised[twin pairs x arrangements]", res)
     if res.violated:
         chk.fail("C07|spec|%s" % res.violated, {"tlc": res.output[-2000:]})
-    recs = sorted(res.out_records, key=lambda r: (r["op"], r["arr"]))
+    recs = sorted(res.out_records, key=lambda r: (r["op"], r["arr"], r.get("form", "float")))
     if quick:
         recs = [r for i, r in enumerate(recs) if len(r["arr"]) < 5 or i % 6 == chk.seed % 6]
     else:
@@ -221,4 +238,4 @@ def run(chk):
 
 def replay(chk, body):
     c = body["case"]
-    core.merge(chk, [replay_cases([{"op": c["op"], "arr": c["arrangement"]}])])
+    core.merge(chk, [replay_cases([{"op": c["op"].split("#")[0], "arr": c["arrangement"], "form": (c["op"].split("#") + ["float"])[1]}])])
